@@ -184,27 +184,34 @@ class Harness:
                 # stay connected and keep sending a byte now and then: a server that has rejected the request must
                 # close the connection all the same
                 import select as _select
-                for _ in range(12):
-                    r, _w, _x = _select.select([csock], [], [], 0.25)
-                    if r:
-                        try:
-                            d = csock.recv(65536)
-                        except OSError as e:
-                            eof = True
-                            client_err = "recv:" + errno.errorcode.get(e.errno, str(e.errno))
-                            break
-                        if not d:
-                            eof = True
-                            break
-                        received += d
-                        continue
+                saw_eof = False
+                closed = False
+                t_end = time.time() + 2.6
+                while time.time() < t_end:
+                    if not saw_eof:
+                        r, _w, _x = _select.select([csock], [], [], 0.2)
+                        if r:
+                            try:
+                                d = csock.recv(65536)
+                            except OSError as e:
+                                closed = True
+                                client_err = "recv:" + errno.errorcode.get(e.errno, str(e.errno))
+                                break
+                            if not d:
+                                saw_eof = True      # the server will send no more; has it really let go of the connection?
+                            else:
+                                received += d
+                            continue
+                    else:
+                        time.sleep(0.2)
                     try:
                         csock.sendall(b"Z")
                     except OSError:
-                        eof = True
+                        closed = True               # EPIPE / ECONNRESET: the server end is gone
                         break
-                if not eof:
-                    client_err = "still-open-while-client-trickles"
+                eof = closed
+                if not closed:
+                    client_err = "half-closed-but-still-reading" if saw_eof else "still-open-while-client-trickles"
                 csock.close()
             elif mode == "close":
                 csock.close()
